@@ -5,9 +5,12 @@ Decided (structural, necessary conditions):
       ("exactly rounded quotient for operands of any size").
   E3  every return path of gcd/gcdx/lcm (generic and overriding bodies) yields the normalised
       associate ("normalised associate regardless of argument order").
-Not decided: a = (a/b)*b + a%b, Bezout identity values, unit tables.
+  E20 Q3-Q6: QuadInt inverse = norm^-1 * conj, Gauss / Eisenstein div_round rounds the exact numerator
+      self * conj(rhs) by norm(rhs) in a basis whose change is a checked linear identity, rem = a - b*(a/b),
+      and the quadrant / sextant normalising-unit tables send every z into one fundamental sector.
+Not decided: Bezout identity values, remainder norm strictly smaller (needs the rounding error bound as arithmetic).
 """
-import e2_float, e3_gcd, e15_divround
+import e2_float, e3_gcd, e15_divround, e20_quadint
 
 LEVEL = 'other'
 EXPLANATION = ('Static analysis of the type-checked MIR of /repo: (E2) float-taint dataflow with call-graph '
@@ -16,11 +19,11 @@ EXPLANATION = ('Static analysis of the type-checked MIR of /repo: (E2) float-tai
                'summaries of every return path of EucRing::{gcd,gcdx,lcm} (defaults + overrides) - the returned '
                'gcd must come from an accepted normalising producer, and a unit-rescaled gcd must carry equally '
                'rescaled Bezout coefficients. (E15) every Neg/Add/Sub of the generic nearest-integer quotient is proved to stay inside the range of an 8/32/64/128-bit '
-               'two\'s-complement type on every path (linear model of truncating division, Fourier-Motzkin). The arithmetic identities themselves are not decided.')
+               'two\'s-complement type on every path (linear model of truncating division, Fourier-Motzkin). (E20) QuadInt inv / div_round / rem / normalizing_unit formulas as polynomial identities and sign-table entailments (Fourier-Motzkin). The Bezout values and the remainder-norm bound are not decided.')
 TRUSTED = ['rustc MIR (dev profile, mir-opt-level=0) of the current /repo tree',
            'class-hierarchy over workspace impls over-approximates unresolved trait calls',
            'num_integer gcd/extended_gcd/lcm return non-negative (normalised) values',
-           'Ring::normalizing_unit(v) is a unit u with v*u normalised (its definition; tables not checked)']
+           'Ring::normalizing_unit(v) is a unit u with v*u normalised (its definition; QuadInt tables checked by E20.Q6, integer / polynomial ones trusted)']
 
 EXACT_TRAITS = ('DivRound', 'std::ops::Div', 'std::ops::Rem', 'std::ops::DivAssign', 'std::ops::RemAssign',
                 'EucRing', 'abst::ring::Ring')
@@ -47,4 +50,7 @@ def run(ctx, rep):
     e3_gcd.run(facts, rep)
     rep.rule('E15', e15_divround.__doc__.strip().split('\n')[0])
     e15_divround.run(facts, rep)
+    rep.rule('E20', e20_quadint.__doc__.strip().split('\n')[0])
+    e20_quadint.selftest(rep)
+    e20_quadint.run(facts, rep, parts=('Q3', 'Q4', 'Q5', 'Q6'))
     rep.callsites += sum(len(facts.bodies[k].calls()) for k in rep.functions if k in facts.bodies)
